@@ -111,6 +111,7 @@ _CALL = re.compile(r'when calling (.*?)(?: \(which (?:returns|raises).*\))?$', r
 
 def parse_call(message):
     """'false when calling check(1, "a") (which returns False)' -> ([1, 'a'], {})"""
+    message = re.sub(r' with crosshair\.patch_to_return\(.*?\)(?= \(which|$)', '', message.strip(), flags=re.S)
     m = _CALL.search(message.strip())
     if not m:
         raise ValueError('cannot parse counterexample: %r' % message)
